@@ -10,7 +10,7 @@ src = f"/tmp/seedwork_md/{pid}-out{rnd}/{m}"
 name = (f"r{rnd}" if rnd else "") + m
 if not os.path.exists(src):
     src = f"/verif/seeded/{pid}/{name}"
-wt = f"/tmp/seedwork_md/R{rnd}_{pid}" if rnd in ("3", "4") and os.path.exists(f"/tmp/seedwork_md/R{rnd}_{pid}") else f"/tmp/seedwork_md/{pid}"
+wt = f"/tmp/seedwork_md/R{rnd}_{pid}" if rnd in ("3", "4", "5", "6") and os.path.exists(f"/tmp/seedwork_md/R{rnd}_{pid}") else f"/tmp/seedwork_md/{pid}"
 r = subprocess.run(["python3", "/verif/tools/try_mutant.py", src, wt] + checks, capture_output=True, text=True)
 d = json.loads(r.stdout.strip().splitlines()[-1])
 ok = d.get("demo_clean") == 0 and d.get("demo_mutated") == 1 and d.get("baseline_lost") == 0
